@@ -1390,6 +1390,71 @@ func (x *Exec) selectStmt(st *State, ins *ssa.Select) *Value {
 	return &Value{Typ: ins.Type(), Tup: tup}
 }
 
+// goStmt: the started goroutine is verified separately (as sequential code
+// against its own contract). Here: the event is counted (ghost ev_go), the
+// goroutine's preconditions must hold when it is started, and every captured
+// variable the goroutine writes becomes arbitrary for the rest of this function.
 func (x *Exec) goStmt(st *State, fr *Frame, ins *ssa.Go, args []*Value, fnv *Value) {
-	x.ghostEvent(st, "go", ins)
+	x.bumpGhost(st, "ev_go", "")
+	if fnv == nil || fnv.Fn == nil {
+		return
+	}
+	callee := fnv.Fn.Fn
+	name := x.P.FuncName(callee)
+	where := x.P.Pos(instrPos(ins))
+	if fc, ok := x.C.Funcs[name]; ok && fr.Fn == x.fn {
+		env := &Env{x: x, st: st, old: st, vars: map[string]*Value{}, pkg: x.pkgOfContract(fc, callee)}
+		for i, p := range callee.Params {
+			if i < len(args) {
+				env.vars[p.Name()] = args[i]
+			}
+		}
+		for i, fv := range callee.FreeVars {
+			if i < len(fnv.Fn.Bindings) && fnv.Fn.Bindings[i].Ptr != nil && fnv.Fn.Bindings[i].Ptr.Kind == PCell {
+				if cv, ok := st.cells[fnv.Fn.Bindings[i].Ptr.Cell]; ok {
+					env.vars[fv.Name()] = cv
+				}
+			}
+		}
+		short := shortCallee(name)
+		for i, r := range fc.Requires {
+			label := r.Label
+			if label == "" {
+				label = fmt.Sprint(i + 1)
+			}
+			props := r.Props
+			if len(props) == 0 {
+				props = fc.Props
+			}
+			x.oblige(st, "go@"+short, label, props, x.evalBool(env, r.Expr), where, r.Src)
+		}
+	}
+	for i, fv := range callee.FreeVars {
+		if i >= len(fnv.Fn.Bindings) {
+			break
+		}
+		written := false
+		if refs := fv.Referrers(); refs != nil {
+			for _, r := range *refs {
+				if sto, ok := r.(*ssa.Store); ok && sto.Addr == fv {
+					written = true
+				}
+			}
+		}
+		b := fnv.Fn.Bindings[i]
+		if written && b.Ptr != nil && b.Ptr.Kind == PCell {
+			st.cells[b.Ptr.Cell] = x.fresh("shared_"+fv.Name(), b.Ptr.Cell.Typ)
+			x.assumeTypeInv(st, st.cells[b.Ptr.Cell])
+			st.shared = append(st.shared[:len(st.shared):len(st.shared)], b.Ptr.Cell)
+		}
+	}
+}
+
+// afterRecv: a receive may synchronise with a goroutine started by this
+// function; the variables it writes are re-havocked.
+func (x *Exec) afterRecv(st *State) {
+	for _, c := range st.shared {
+		st.cells[c] = x.fresh("shared_"+c.Name, c.Typ)
+		x.assumeTypeInv(st, st.cells[c])
+	}
 }
